@@ -48,8 +48,10 @@ def run_property(pid: str, repo: str, tier: str, evidence_dir: str | None = None
         if hasattr(mod, "liveness"):
             liveness = mod.liveness(os.path.join(VERIF, "fixtures"))
         extra: dict = {}
-        if tier == "thorough" and hasattr(mod, "thorough"):
-            extra = mod.thorough(an, repo) or {}
+        if tier == "thorough":
+            if hasattr(mod, "thorough"):
+                extra = mod.thorough(an, repo) or {}
+            extra["selftest"] = _selftest(pid, repo)
         known, fixed = load_known(known_path)
     except AnalysisError as exc:
         print(f"ANALYSIS-ERROR property={pid} {exc}")
@@ -159,6 +161,38 @@ def run_property(pid: str, repo: str, tier: str, evidence_dir: str | None = None
         f"violations={len(violations)} known={len(known_hits)} wall={evidence['wall_s']}s"
     )
     return 1 if violations else 0
+
+
+def _selftest(pid: str, repo: str) -> dict:
+    """Thorough tier: run the checker self-test variants of this property on scratch copies of the
+    current tree (both directions).  Informational: a mismatch is recorded and printed, it never
+    turns into a verdict about /repo."""
+    if VERIF not in sys.path:
+        sys.path.insert(0, VERIF)
+    try:
+        from selftest.harness import run_all
+
+        results = run_all(repo, props=[pid])
+    except Exception as exc:  # noqa: BLE001
+        return {"error": repr(exc)}
+    brk = [r for r in results if r["breaking"] and pid in r["results"]]
+    ben = [r for r in results if not r["breaking"] and pid in r["results"]]
+    skipped = [r["variant"] for r in results if any(p.startswith("edit failed") for p in r["problems"])]
+    killed = [r["variant"] for r in brk if r["results"][pid]["exit"] == 1]
+    silent = [r["variant"] for r in ben if r["results"][pid]["exit"] == 0]
+    mism = [{"variant": r["variant"], "problems": r["problems"]} for r in results if not r["ok"] and r["variant"] not in skipped]
+    for m in mism:
+        print(f"SELFTEST-NOTE property={pid} variant={m['variant']}: {'; '.join(m['problems'])[:300]}")
+    return {
+        "variants_run": len(results),
+        "breaking_variants": len(brk),
+        "breaking_reported": len(killed),
+        "benign_variants": len(ben),
+        "benign_silent": len(silent),
+        "not_applicable_to_this_tree": skipped,
+        "mismatches": mism,
+        "sample_variants": [r["variant"] + ": " + "; ".join(r["edits"])[:120] for r in results[:8]],
+    }
 
 
 def _write_error_evidence(path: str, pid: str, tier: str, seed: int, msg: str, wall: float) -> None:
